@@ -73,12 +73,14 @@ class Sizing(Stream):
         return [[0, 0, 0], [1, 4, 90], [9, 20, 110], [1, 1, 1], [2, 256, 1000], [65, 1, 1],
                 [0, 0, 50], [1, 2, 50], [1, 4, 50], [1, 4, 0], [4, 8, 0]]
 
-    def observe(self, case):
+    def observe(self, case, cap=None):
+        """cap: the request OBJECT to hand over (history stream: objects re-used and modified in place); default fresh"""
         from fim.slivers.instance_catalog import InstanceCatalog
         from fim.slivers.capacities_labels import Capacities
         try:
             cat = InstanceCatalog()
-            cap = Capacities(core=case[0], ram=case[1], disk=case[2])
+            if cap is None:
+                cap = Capacities(core=case[0], ram=case[1], disk=case[2])
             name = cat.map_capacities_to_instance(cap=cap)
             c = cat.get_instance_capacities(instance_type=name)
             caps = None if c is None else [c.core, c.ram, c.disk]
@@ -88,9 +90,14 @@ class Sizing(Stream):
         except Exception as e:
             return {'err': type(e).__name__}
 
+    def req_term(self, case):
+        return '(%s, %s, %s)' % (cZ(case[0]), cZ(case[1]), cZ(case[2]))
+
+    def obs_val(self, o):
+        return py_val(o if 'err' in o else [o['name'], o['caps']])
+
     def to_coq(self, case, o):
-        v = o if 'err' in o else [o['name'], o['caps']]
-        return '((%s, %s, %s), %s)' % (cZ(case[0]), cZ(case[1]), cZ(case[2]), py_val(v))
+        return '(%s, %s)' % (self.req_term(case), self.obs_val(o))
 
     _tab = None
 
@@ -410,7 +417,8 @@ class Components(Stream):
                 {'name': 'some', 'sel': ['tm', 'SmartNIC', 'blah'], 'nsid': None, 'ids': None, 'labs': None, 'parent': None},
                 {'name': 'myNIC', 'sel': ['mt', 'SmartNIC_ConnectX_6'], 'nsid': None, 'ids': None, 'labs': None, 'parent': None}]
 
-    def observe(self, case):
+    def call(self, case):
+        """run generate_component; returns (component | {'err'}, the label objects handed over, the id list handed over)"""
         from fim.slivers.component_catalog import ComponentCatalog
         from fim.slivers.attached_components import ComponentType
         from fim.slivers.capacities_labels import Labels
@@ -437,7 +445,16 @@ class Components(Stream):
             c = ComponentCatalog().generate_component(name=case['name'], ns_node_id=case['nsid'], interface_node_ids=ids,
                                                       interface_labels=labs, parent_name=case['parent'], **kw)
         except Exception as ex:
-            return {'err': type(ex).__name__}
+            return {'err': type(ex).__name__}, labs, ids
+        return c, labs, ids
+
+    def observe(self, case):
+        c, labs, _ = self.call(case)
+        return c if isinstance(c, dict) else self.snapshot(c, case, labs)
+
+    def snapshot(self, c, case, labs):
+        """canonical observation of a component object (may be taken again later: aliasing checks)"""
+        cp = lambda x: list(x) if isinstance(x, list) else x      # the observation must not alias the observed lists
         supplied = set(case['ids'] or []) | {case['nsid']}
 
         def idv(x):
@@ -472,7 +489,7 @@ class Components(Stream):
                     return {'err': 'SHAPE:interface %s got mac/vlan_range labels nobody supplied' % key}
                 fresh.append(i.node_id)
                 ifs.append([i.resource_name, None if i.resource_type is None else str(i.resource_type), idv(i.node_id),
-                            tag, l.bdf, l.local_name, cap.unit, cap.bw])
+                            tag, cp(l.bdf), cp(l.local_name), cap.unit, cap.bw])
             fresh.append(n.node_id)
             ns = [idv(n.node_id), n.resource_name, str(n.resource_type), str(n.layer), ifs]
         fresh = [x for x in fresh if x not in supplied]
@@ -480,7 +497,7 @@ class Components(Stream):
             return {'err': 'SHAPE:generated ids repeat'}
         return [c.resource_name, c.resource_model, None if c.resource_type is None else str(c.resource_type), c.details, ns]
 
-    def to_coq(self, case, o):
+    def case_term(self, case):
         s = case['sel']
         if s[0] == 'mt':
             enum, _ = self.members()
@@ -494,8 +511,11 @@ class Components(Stream):
             return '{| lab_bdf := %s; lab_tag := %s |}' % (b, cN(i))
         ids = copt(case['ids'], lambda l: clist([cstr(x) for x in l]))
         labs = copt(case['labs'], lambda l: clist([lab(i, k) for i, k in enumerate(l)]))
-        return '((%s, %s, %s, %s, %s, %s), %s)' % (cstr(case['name']), sel, copt(case['nsid'], cstr), ids, labs,
-                                                    copt(case['parent'], cstr), py_val(o))
+        return '(%s, %s, %s, %s, %s, %s)' % (cstr(case['name']), sel, copt(case['nsid'], cstr), ids, labs,
+                                             copt(case['parent'], cstr))
+
+    def to_coq(self, case, o):
+        return '(%s, %s)' % (self.case_term(case), py_val(o))
 
     def entry_for(self, case):
         cat = self.catalog()
@@ -643,11 +663,249 @@ class Enum(Stream):
         return 'enum'
 
 
+# ------------------------------------------------------------------------------------------------
+# stream 5: histories -- no state may leak from one call to the next
+# ------------------------------------------------------------------------------------------------
+
+def mutate_component(c, labs, ids):
+    """the caller modifies, in place, every mutable part of what generate_component returned / was handed"""
+    nsi = c.network_service_info
+    if nsi is not None:
+        for n in list(nsi.network_services.values()):
+            for i in list(n.interface_info.interfaces.values()):
+                cap = i.capacities
+                cap._set_fields(bw=cap.bw + 7, unit=cap.unit + 5, mtu=9000)
+                l = i.labels
+                if isinstance(l.bdf, list):
+                    l.bdf.append('0000:ff:00.0')
+                if isinstance(l.local_name, list):
+                    l.local_name.append('mutated')
+                l._set_fields(local_name='mutated', bdf='0000:ee:00.0', vlan_range='7-8')
+                i.node_id = 'mutated-id'
+                i.resource_type = None
+            n.interface_info.interfaces.clear()
+            n.node_id = 'mutated-ns'
+            n.layer = None
+        nsi.network_services.clear()
+    c.details = 'mutated'
+    c.resource_model = 'mutated'
+    c.resource_type = None
+    if labs is not None:
+        labs.clear()
+    if ids is not None:
+        ids[:] = ['mutated'] * (len(ids) + 1)
+
+
+class History(Stream):
+    """case = {'ops': [...]}; ops: ['map', k, [core, ram, disk]]  request object k (k = -1: a fresh object) is SET IN PLACE to
+       these values and mapped; ['gen', gid, component-case]  generate and keep the result as gid; ['mutate', gid]  modify
+       result gid, its label objects and its id list in place; ['recheck', gid]  observe result gid again"""
+    name = 'history'
+    header = HDR
+    case_type = 'list hop * list val'
+    check_fn = 'check_hist'
+    shard = 40
+    rule = ('sequences of 6..16 calls: map_capacities_to_instance on 2 long-lived request objects that are modified in place '
+            'between calls (and on fresh ones; repeated identical values interleaved with different ones), generate_component for '
+            'same / other entries interleaved with in-place modification of every mutable part of earlier results (port capacities, '
+            'labels, bdf / local_name lists, ids, interface and service dicts, the id and label lists handed over) and re-observation '
+            'of untouched earlier results; every response compared with the model and judged by the sizing / components oracles; '
+            'non-trivial = the history re-uses a modified request object or generates after a modification')
+
+    def __init__(self):
+        self.sz = Sizing()
+        self.cp = Components()
+
+    def gen(self, rng, tier):
+        n_cases = 150 if tier == 'quick' else 1500
+        ax = self.sz.axes()
+        cat = [e for e in self.cp.catalog()]
+        with_ifs = [e for e in cat if 'Interfaces' in e]
+        out = []
+        for _ in range(n_cases):
+            ops, gids, mutated = [], [], set()
+            pool = [[rng.choice(a + [a[-1] + 1, 0]) for a in ax] for _ in range(3)]
+            kind = rng.choice(['sizing', 'components', 'mixed'])
+            for _ in range(rng.randrange(6, 17)):
+                u = rng.random()
+                if kind == 'sizing' or (kind == 'mixed' and u < 0.4):
+                    ops.append(['map', rng.choice([0, 0, 1, 1, -1]), list(rng.choice(pool))])
+                    continue
+                u = rng.random()
+                live = [g for g in gids if g not in mutated]
+                if u < 0.45 or not gids:
+                    e = rng.choice(with_ifs) if rng.random() < 0.85 else rng.choice(cat)
+                    if gids and rng.random() < 0.5:       # the same entry / the same call again
+                        prev = [o for o in ops if o[0] == 'gen'][-1][2]
+                        case = dict(prev, name=rng.choice(['nic1', 'n0']))
+                    else:
+                        n = len(e.get('Interfaces', {}))
+                        lab = rng.random() < 0.7
+                        case = {'name': rng.choice(['nic1', 'n0', 'GPU_2']), 'sel': ['tm', e['Type'], e['Model']],
+                                'nsid': rng.choice([None, 'ns-7']),
+                                'ids': ['id-%d' % i for i in range(n)] if lab and rng.random() < 0.5 else None,
+                                'labs': [rng.choice(KINDS) for _ in range(n)] if lab else None,
+                                'lx': [rng.choice(LX) for _ in range(n)], 'parent': rng.choice([None, 'node1'])}
+                    gid = len(gids)
+                    gids.append(gid)
+                    ops.append(['gen', gid, case])
+                elif u < 0.8 and live:
+                    g = rng.choice(live)
+                    mutated.add(g)
+                    ops.append(['mutate', g])
+                elif live:
+                    ops.append(['recheck', rng.choice(live)])
+            out.append({'ops': ops})
+        return out
+
+    def corpus(self):
+        nic = {'name': 'nic1', 'sel': ['tm', 'SmartNIC', 'ConnectX-6'], 'nsid': None, 'ids': None, 'labs': None, 'parent': None}
+        return [{'ops': [['map', 0, [1, 1, 1]], ['map', 0, [64, 256, 1000]], ['map', 0, [1, 1, 1]], ['map', 0, [65, 1, 1]],
+                         ['map', -1, [1, 1, 1]], ['map', 0, [1, 1, 1]]]},
+                {'ops': [['gen', 0, nic], ['gen', 1, nic], ['mutate', 1], ['recheck', 0], ['gen', 2, nic],
+                         ['gen', 3, dict(nic, sel=['tm', 'SmartNIC', 'ConnectX-5'])], ['mutate', 3],
+                         ['gen', 4, dict(nic, sel=['tm', 'FPGA', 'Xilinx-U280'])], ['recheck', 2]]}]
+
+    def observe(self, case):
+        from fim.slivers.capacities_labels import Capacities
+        objs = {}
+        held = {}
+        out = []
+        for op in case['ops']:
+            try:
+                if op[0] == 'map':
+                    k, v = op[1], op[2]
+                    cap = objs.get(k) if k >= 0 else None
+                    if cap is None:
+                        cap = Capacities()
+                        if k >= 0:
+                            objs[k] = cap
+                    cap._set_fields(core=v[0], ram=v[1], disk=v[2])          # in place
+                    out.append(self.sz.observe(v, cap=cap))
+                elif op[0] == 'gen':
+                    c, labs, ids = self.cp.call(op[2])
+                    held[op[1]] = (c, labs, ids, op[2])
+                    out.append(c if isinstance(c, dict) else self.cp.snapshot(c, op[2], labs))
+                elif op[0] == 'mutate':
+                    c, labs, ids, _ = held[op[1]]
+                    if not isinstance(c, dict):
+                        mutate_component(c, labs, ids)
+                    out.append(None)
+                else:
+                    c, labs, ids, cc = held[op[1]]
+                    out.append(c if isinstance(c, dict) else self.cp.snapshot(c, cc, labs))
+            except Exception as e:
+                out.append({'err': 'HARNESS:' + type(e).__name__})
+        return out
+
+    def _gen_case(self, case, gid):
+        for op in case['ops']:
+            if op[0] == 'gen' and op[1] == gid:
+                return op[2]
+
+    def to_coq(self, case, obs):
+        ops, vals = [], []
+        for op, o in zip(case['ops'], obs):
+            if op[0] == 'map':
+                ops.append('OpMap %s' % self.sz.req_term(op[2]))
+                vals.append(self.sz.obs_val(o) if isinstance(o, dict) and ('name' in o or 'err' in o) else py_val(o))
+            elif op[0] == 'mutate':
+                ops.append('OpSkip')
+                vals.append(py_val(o))
+            else:
+                cc = op[2] if op[0] == 'gen' else self._gen_case(case, op[1])
+                ops.append('OpGen %s' % self.cp.case_term(cc))
+                vals.append(py_val(o))
+        return '(%s, %s)' % (clist(ops), clist(['(%s)' % v for v in vals]))
+
+    def oracle(self, case, obs):
+        first = {}
+        for n, (op, o) in enumerate(zip(case['ops'], obs)):
+            why = None
+            if isinstance(o, dict) and str(o.get('err', '')).startswith('HARNESS'):
+                why = o['err']
+            elif op[0] == 'map':
+                why = self.sz.oracle(op[2], o)
+                if why is None and o.get('request_after') != list(op[2]):
+                    why = 'the request was modified'
+            elif op[0] == 'gen':
+                first[op[1]] = o
+                why = self.cp.oracle(op[2], o)
+            elif op[0] == 'recheck':
+                if o != first.get(op[1]):
+                    why = 'the result of an earlier generate_component call changed after ANOTHER result was modified in place'
+                else:
+                    why = self.cp.oracle(self._gen_case(case, op[1]), o)
+            if why:
+                return 'call #%d %s: %s' % (n, op[0], why)
+        return None
+
+    def key(self, case, obs):
+        ops = case['ops']
+        seen = set()
+        for n, op in enumerate(ops):
+            if op[0] == 'map' and op[1] >= 0:
+                if op[1] in seen:
+                    return stable_hash(case)
+                seen.add(op[1])
+            if op[0] == 'mutate' and any(o[0] == 'gen' for o in ops[n + 1:]):
+                return stable_hash(case)
+        return None
+
+    def describe(self, case, obs):
+        return {'case': case, 'impl': [(o if not isinstance(o, dict) or 'err' in o else o.get('name')) for o in obs][:16]}
+
+    def histogram(self, cases, obs):
+        h = {'map': 0, 'gen': 0, 'mutate': 0, 'recheck': 0, 'map_on_reused_object': 0, 'gen_after_mutate': 0, 'ops': 0}
+        for c in cases:
+            seen, mut = set(), False
+            for op in c['ops']:
+                h[op[0]] += 1
+                h['ops'] += 1
+                if op[0] == 'map' and op[1] >= 0:
+                    h['map_on_reused_object'] += op[1] in seen
+                    seen.add(op[1])
+                mut = mut or op[0] == 'mutate'
+                h['gen_after_mutate'] += op[0] == 'gen' and mut
+        return h
+
+    def fails_fresh(self, case):
+        """does the history fail in a FRESH interpreter?  (hidden state left by earlier cases of this process must not
+        be needed by the replay: it has to reproduce on its own)"""
+        import subprocess
+        code = ('import sys, json; sys.path.insert(0, %r); from harness import c18, common; common.setup_repo_path(); '
+                'st = c18.History(); c = json.loads(sys.stdin.read()); print("FAILS" if st.oracle(c, st.observe(c)) else "PASSES")'
+                % common.VERIF)
+        env = dict(os.environ, PYTHONPATH=common.REPO, PYTHONHASHSEED='0')
+        try:
+            p = subprocess.run([common.PY, '-W', 'ignore', '-c', code], input=json.dumps(case), capture_output=True,
+                               text=True, timeout=120, env=env)
+            return 'FAILS' in p.stdout
+        except Exception:
+            return False
+
+    def shrink(self, case, failing):
+        if not self.fails_fresh(case):
+            return case
+        failing = self.fails_fresh
+        ops = list(case['ops'])
+        i = len(ops) - 1
+        while i >= 0:
+            op = ops[i]
+            cand = [o for j, o in enumerate(ops) if j != i and not (op[0] == 'gen' and o[0] in ('mutate', 'recheck') and o[1] == op[1])]
+            if cand and failing({'ops': cand}):
+                ops = cand
+                i = min(i, len(ops)) - 1
+            else:
+                i -= 1
+        return {'ops': ops}
+
+
 class C18(Check):
     pid = 'C18'
     translators = ['gen_catalog', 'gen_caps']
     model_targets = ['Model/Catalog18.vo']
-    streams = [Sizing(), PySort(), Components(), Enum()]
+    streams = [Sizing(), PySort(), Components(), Enum(), History()]
     trusted_base = [
         'Coq 8.16.1 kernel (coqc), vm_compute for the finite obligations over the regenerated catalogue and for the correspondence',
         'Print Assumptions of every C18 theorem: Closed under the global context (no axioms)',
